@@ -288,6 +288,9 @@ class Rows(Stream):
     def impl(self, case):
         return pl.run_align(case)
 
+    def tolerated(self, case, out):
+        return bool(out.get('float_flip'))
+
     def term(self, case, out):
         return '(%s, %s)' % (pl.align_term(case, out), zl(pl.r10(x) for x in whole_of(case)))
 
